@@ -30,9 +30,21 @@ with warnings.catch_warnings():
 #   palette : which floats the cells 1, 2, 3, ... stand for - whole numbers, or values that differ
 #             only by tiny amounts (a revision from 1000000 to 1000001 is a revision).
 # All palette values are exactly representable, so the way back (float -> cell) is exact equality.
+#   clock   : how an instant is WRITTEN for the code.  The specification hands over written times
+#             <<w, z>> (wall clock w in the zone with offset z, instant = w - z, spec/Bitemporal.tla
+#             "realisations of instants"); a clock fixes the unit and whether the times carry a zone:
+#               naive13  13 h per unit, no zone (the time of day varies from stamp to stamp);
+#               daily    24 h per unit at midnight, no zone: a stamp / read time may be a datetime.date;
+#               utc5 / west5 / east5   5 h per unit, timezone-AWARE: zone z of the specification is
+#                        UTC + 5 (z + home) hours, home = 0 / -1 / +1, so the zones of one history are
+#                        e.g. New York (-5), UTC, Karachi (+5), and two desks write one instant differently.
+#             Naive and aware times are never mixed in one history (Python refuses to order them).
 _D0 = datetime.datetime(2020, 1, 1)
 NDATES = 128
 ERAS = {'past': datetime.datetime(2021, 6, 1, 6), 'future': datetime.datetime(2101, 6, 1, 6)}
+CLOCKS = {'naive13': (13, None), 'daily': (24, None), 'utc5': (5, 0), 'west5': (5, -1), 'east5': (5, 1)}
+CLOCKS_ONE_ZONE = ('naive13', 'daily', 'utc5', 'naive13', 'west5')    # for histories that use zone 0 only
+CLOCKS_ZONES = ('utc5', 'west5', 'east5')                              # for histories written in several zones
 PALETTES = {
     'whole': lambda k: float(k),                        # 1, 2, 3, ...
     'close': lambda k: 1.0 + (k - 1) * 2.0 ** -20,      # 1, 1.00000095.., ... (relative steps ~1e-6)
@@ -46,9 +58,11 @@ class _Render(object):
     def __init__(self):
         self.use('past', 'whole')
 
-    def use(self, era, palette):
-        self.era, self.palette = era, palette
-        self.s0 = ERAS[era]
+    def use(self, era, palette, clock='naive13'):
+        self.era, self.palette, self.clock = era, palette, clock
+        self.unit, self.home = CLOCKS[clock]
+        self.aware = self.home is not None
+        self.s0 = ERAS[era] if clock != 'daily' else ERAS[era].replace(hour=0)
         self.val = {k: PALETTES[palette](k) for k in range(1, 33)}
         self.cell = {v: k for k, v in self.val.items()}
         assert len(self.cell) == len(self.val)
@@ -64,8 +78,88 @@ def date_of(d):
 
 
 def time_of(t):
-    """stamp / read time number t; 13 h apart, so the time of day varies"""
-    return RENDER.s0 + datetime.timedelta(hours=13 * t)
+    """the instant number t as a naive datetime (UTC when the clock is aware); `unit` hours apart, so
+    the time of day varies unless the clock is `daily`"""
+    return RENDER.s0 + datetime.timedelta(hours=RENDER.unit * t)
+
+
+# ---- realisations of a written time <<w, z>> ------------------------------------------------------
+_NAMED = {-10: 'Pacific/Honolulu', -5: 'America/Bogota', 0: 'UTC', 5: 'Asia/Karachi', 10: 'Australia/Brisbane'}   # no DST
+
+
+def _tz_fixed(h):
+    return datetime.timezone(datetime.timedelta(hours=h))
+
+
+def _tz_etc(h):
+    import zoneinfo
+    return zoneinfo.ZoneInfo('Etc/GMT%+d' % -h if h else 'UTC')          # POSIX sign: Etc/GMT+5 is UTC-5
+
+
+def _tz_named(h):
+    import zoneinfo
+    return zoneinfo.ZoneInfo(_NAMED[h])
+
+
+def _tz_pytz(h):
+    import pytz
+    return pytz.FixedOffset(60 * h)
+
+
+def _tz_dateutil(h):
+    import dateutil.tz
+    return dateutil.tz.tzoffset(None, 3600 * h)
+
+
+ZKINDS = {'fixed': _tz_fixed}
+for _k, _f in (('etc', _tz_etc), ('named', _tz_named), ('pytz', _tz_pytz), ('dateutil', _tz_dateutil)):
+    try:
+        for _h in _NAMED:
+            assert datetime.datetime(2021, 6, 1, tzinfo=_f(_h)).utcoffset() == datetime.timedelta(hours=_h)
+            assert datetime.datetime(2101, 6, 1, tzinfo=_f(_h)).utcoffset() == datetime.timedelta(hours=_h)
+        ZKINDS[_k] = _f
+    except Exception:                            # that zone library / database is not installed here
+        pass
+ZKIND_LIST = sorted(ZKINDS)
+STAMP_TYPES = {'naive13': ('dt', 'ts', 'np', 'iso', 'np_ns'), 'daily': ('dt', 'date', 'ts', 'np', 'date', 'iso'),
+               'aware': ('dt', 'ts', 'ts_tz')}
+READ_TYPES = {'naive13': ('dt', 'ts', 'np'), 'daily': ('dt', 'date', 'ts', 'np'), 'aware': ('dt', 'ts', 'ts_tz')}
+
+
+def types_of(table):
+    return table['aware' if RENDER.aware else RENDER.clock]
+
+
+def when(w, z=0, typ='dt', zkind='fixed'):
+    """the written time <<w, z>> of the specification as the Python object handed to the code"""
+    if not RENDER.aware:
+        if z != 0:
+            raise Machinery('a zone on a naive clock')
+        t = time_of(w)
+        if typ == 'date':
+            if RENDER.clock != 'daily':
+                raise Machinery('a datetime.date on an intraday clock')
+            return t.date()
+        return {'dt': lambda: t, 'ts': lambda: pd.Timestamp(t), 'np': lambda: np.datetime64(t),
+                'np_ns': lambda: np.datetime64(t, 'ns'), 'iso': lambda: t.isoformat(sep=' ')}[typ]()
+    h = RENDER.unit * (z + RENDER.home)                       # offset from UTC, hours
+    wall = RENDER.s0 + datetime.timedelta(hours=RENDER.unit * (w + RENDER.home))
+    tz = ZKINDS[zkind](h)
+    if typ == 'ts_tz':
+        return pd.Timestamp(wall, tz=tz)
+    t = tz.localize(wall) if hasattr(tz, 'localize') else wall.replace(tzinfo=tz)
+    return pd.Timestamp(t) if typ == 'ts' else t
+
+
+def instant_of(u):
+    """a stored stamp -> the specification's instant number (exact, or a Machinery error)"""
+    u = pd.Timestamp(u)
+    if u.tzinfo is not None:
+        u = u.tz_convert('UTC').tz_localize(None)
+    q, r = divmod(u - pd.Timestamp(RENDER.s0), pd.Timedelta(hours=RENDER.unit))
+    if r != pd.Timedelta(0):
+        raise Machinery('a stamp in the store that nobody published: %s' % u)
+    return int(q)
 
 
 DATE_IX = {pd.Timestamp(date_of(d)): d for d in range(NDATES)}
@@ -92,39 +186,44 @@ def version(pairs, dtype='float'):
     return pd.Series(vals, idx, dtype=float)
 
 
-def asof_of(T, spelling):
-    t = time_of(T)
-    if spelling == 'ts':
-        return pd.Timestamp(t)
-    if spelling == 'np':
-        return np.datetime64(t)
+def asof_of(T, spelling, zkind='fixed'):
+    """T = <<w, z>>"""
     if spelling == 'none':
         return None
-    return t
+    return when(T[0], T[1], spelling, zkind)
+
+
+def _ev_stamp(e, k=0):
+    """the stamp of a history event as the Python object: type and zone library rotate with the position"""
+    ty = types_of(STAMP_TYPES)
+    return when(e['w'], e['z'], e.get('stype') or ty[(k + e['s']) % len(ty)],
+                e.get('zkind') or ZKIND_LIST[(k + e['w']) % len(ZKIND_LIST)])
 
 
 # ---- the public calls -----------------------------------------------------------------------------
-def merge(store, s, pairs, spelling='bi', dtype='float'):
+def merge(store, stamp, pairs, spelling='bi', dtype='float'):
+    """stamp: the Python object (see `when`)"""
     from pyg_base import Bi, bi_merge
     v = version(pairs, dtype)
     if spelling == 'asof':                       # bi_merge stamps the plain series itself
-        return bi_merge(store, v, asof=time_of(s))
+        return bi_merge(store, v, asof=stamp)
     if spelling == 'start' and store is None:    # the first version *is* the store
-        return Bi(v, time_of(s))
-    return bi_merge(store, Bi(v, time_of(s)))
+        return Bi(v, stamp)
+    return bi_merge(store, Bi(v, stamp))
 
 
 def merge_batch(store, items):
     """one call merging several versions, in list order"""
     from pyg_base import Bi, bi_merge
-    return bi_merge(store, [Bi(version(p), time_of(s)) for s, p in items])
+    return bi_merge(store, [Bi(version(p), stamp) for stamp, p in items])
 
 
-def read(store, T, what, spelling='dt'):
-    """bi_read, encoded: {'ok': 1, 'res': [[date, cell], ...] sorted by date} or {'ok': 0, 'cls': ...}"""
+def read(store, T, what, spelling='dt', zkind='fixed'):
+    """bi_read at the written time T = <<w, z>>, encoded: {'ok': 1, 'res': [[date, cell], ...] sorted by date}
+    or {'ok': 0, 'cls': ...}"""
     from pyg_base import bi_read
     try:
-        r = bi_read(store, asof_of(T, spelling), what)
+        r = bi_read(store, asof_of(T, spelling, zkind), what)
     except Exception as e:
         return {'ok': 0, 'res': [], 'cls': type(e).__name__}
     try:
@@ -139,16 +238,16 @@ def read(store, T, what, spelling='dt'):
 
 
 def stored_rows(store, s):
-    """the rows the real store holds at stamp s, as [[date, cell], ...] (to choose a re-merge from)"""
+    """the rows the real store holds at the instant s (in whatever zone their stamp is written), as
+    [[date, cell], ...] (to choose a re-merge from)"""
     from pyg_base._bitemporal import _updated, _series
-    sub = store[store[_updated] == time_of(s)]
-    return sorted([DATE_IX[pd.Timestamp(i)], enc_cell(x)] for i, x in zip(sub.index, sub[_series].values))
+    return sorted([DATE_IX[pd.Timestamp(i)], enc_cell(x)]
+                  for i, x, u in zip(store.index, store[_series].values, list(store[_updated])) if instant_of(u) == s)
 
 
 def stored_stamps(store):
     from pyg_base._bitemporal import _updated
-    back = {pd.Timestamp(time_of(t)): t for t in range(-2, 80)}
-    return sorted({back[pd.Timestamp(u)] for u in store[_updated].values})
+    return sorted({instant_of(u) for u in list(store[_updated])})
 
 
 def has_ties(hist):
@@ -167,23 +266,26 @@ def has_ties(hist):
 _TASKS = []           # filled before the pool forks
 
 
-def _apply(store, e):
+def _apply(store, e, k=0):
     if e['op'] == 'again':
         if stored_rows(store, e['s']) and all(p in stored_rows(store, e['s']) for p in e['v']):
-            return merge(store, e['s'], e['v']), True
+            return merge(store, _ev_stamp(e, k), e['v']), True
         return store, False                      # not in the *real* store: outside the statement's domain
-    return merge(store, e['s'], e['v']), True
+    return merge(store, _ev_stamp(e, k), e['v']), True
 
 
-def _check_reads(store, reads, spell):
-    """compare every read the specification printed for this state; returns the mismatches"""
+def _check_reads(store, reads, spell, may_refuse=(), k=0):
+    """compare every read the specification printed for this state; returns the mismatches.
+    spell: the Python types T is handed over in, rotating over the reads (with the zone library)"""
     bad = []
-    for r in reads:
+    for j, r in enumerate(reads):
         for what in (-1, 0):
-            got = read(store, r['T'], what, spell)
-            ok = got['ok'] == 1 and (got['res'] == r['latest'] if what == -1 else got['res'] in r['first'])
+            sp = spell[(j + k + (what == 0)) % len(spell)]
+            got = read(store, (r['w'], r['z']), what, sp, ZKIND_LIST[(j + k) % len(ZKIND_LIST)])
+            ok = ((got['res'] == r['latest'] if what == -1 else got['res'] in r['first']) if got['ok'] == 1
+                  else sp in may_refuse)         # an exception only where the specification admits one (DateRefused)
             if not ok:
-                bad.append((r['T'], what, r['latest'] if what == -1 else r['first'], got))
+                bad.append((r, sp, what, r['latest'] if what == -1 else r['first'], got))
     return bad
 
 
@@ -191,56 +293,59 @@ def _linear(hist, spells):
     store = None
     for k, e in enumerate(hist):
         if e['op'] == 'merge':
-            store = merge(store, e['s'], e['v'], spells[k % len(spells)])
+            store = merge(store, _ev_stamp(e, k), e['v'], spells[k % len(spells)])
         else:
-            store, _ = _apply(store, e)
+            store, _ = _apply(store, e, k)
     return store
 
 
 def _replay_subtree(ix):
     """depth-first replay of one subtree of TLC's history tree; every node = one more public call on
     the store its parent reached, followed by all reads"""
-    root_hist, nodes = _TASKS[ix]
+    root_hist, nodes, zones, may_refuse = _TASKS[ix]
     era, palette = RENDERINGS[ix % len(RENDERINGS)]
-    RENDER.use(era, palette)
+    clocks = CLOCKS_ZONES if zones else CLOCKS_ONE_ZONE
+    clock = clocks[ix % len(clocks)]
+    RENDER.use(era, palette, clock)
     out = {'evals': 0, 'nodes': 0, 'viol': [], 'notes': [], 'skipped': 0, 'shared_only': 0, 'sample': None}
     spells_m = ('bi', 'asof', 'start')
-    spells_r = ('dt', 'ts', 'np')
+    spells_r = types_of(READ_TYPES)
 
     def visit(key, store):
         hist, reads, kids = nodes[key]
         e = hist[-1]
         k = len(hist) - 1
         if e['op'] == 'merge':
-            st = merge(store, e['s'], e['v'], spells_m[(k + len(e['v'])) % 3])
+            st = merge(store, _ev_stamp(e, k), e['v'], spells_m[(k + len(e['v'])) % 3])
             ok = True
         else:
-            st, ok = _apply(store, e)
+            st, ok = _apply(store, e, k)
         if not ok:
             out['skipped'] += 1
             return
         out['nodes'] += 1
-        sp = spells_r[(k + e['s']) % 3]
-        bad = _check_reads(st, reads, sp)
+        bad = _check_reads(st, reads, spells_r, may_refuse, k + e['s'])
         out['evals'] += 1 + 2 * len(reads)
         if bad:
             # the tree shares the parents' store objects; a user holds one store: re-run the history alone
             st2 = _linear(hist, ('bi',))
-            bad2 = _check_reads(st2, reads, 'dt')
+            bad2 = _check_reads(st2, reads, spells_r, may_refuse, k + e['s'])
             if not bad2:
                 out['shared_only'] += 1
-            for T, what, want, got in bad2[:2]:
+            for r, sp, what, want, got in bad2[:2]:
                 out['viol'].append(('read_latest' if what == -1 else 'read_first',
-                                    {'engine': 's2c', 'op': 'read', 'what': what, 'T': T, 'after': e['op'],
-                                     'era': era, 'palette': palette,
-                                     'ties': has_ties(hist), 'rows_gt16': False, 'hist': hist},
+                                    {'engine': 's2c', 'op': 'read', 'what': what, 'T': r['T'], 'w': r['w'], 'z': r['z'],
+                                     'spelling': sp, 'after': e['op'], 'era': era, 'palette': palette, 'clock': clock,
+                                     'zones': zones, 'ties': has_ties(hist), 'rows_gt16': False, 'hist': hist},
                                     {'expected': want, 'observed': got}))
         distinct = {json.dumps(r['latest']) for r in reads}
         if len(distinct) > 2:                     # more than "nothing yet" and one constant picture
             out['notes'].append(key)
         if out['sample'] is None and len(hist) >= 2 and len(distinct) > 2:
             out['sample'] = {'s2c_history': hist, 'expected_reads': reads[-2:],
-                             'observed': [read(st, reads[-2]['T'], -1), read(st, reads[-1]['T'], 0)]}
+                             'clock': clock,
+                             'observed': [read(st, (reads[-2]['w'], reads[-2]['z']), -1, spells_r[0]),
+                                          read(st, (reads[-1]['w'], reads[-1]['z']), 0, spells_r[0])]}
         for c in kids:
             visit(c, st)
 
@@ -253,6 +358,8 @@ def s2c(ctx, emitted, label):
     """emitted: [{'hist': [...], 'reads': [...]}] - one per state TLC expanded"""
     global _TASKS
     nodes = {}
+    zones = len({r['z'] for x in emitted[:50] for r in x['reads']}) > 1     # is the universe written in several zones?
+    may_refuse = tuple(emitted[0]['may_refuse'])
     for x in emitted:
         nodes[json.dumps(x['hist'])] = [x['hist'], x['reads'], []]
     roots = []
@@ -272,7 +379,7 @@ def s2c(ctx, emitted, label):
         for c in nodes[key][2]:
             collect(c, acc)
         return acc
-    _TASKS = [(nodes[r][0], collect(r, {})) for r in sorted(roots)]
+    _TASKS = [(nodes[r][0], collect(r, {}), zones, may_refuse) for r in sorted(roots)]
     order = sorted(range(len(_TASKS)), key=lambda i: -len(_TASKS[i][1]))
     results = _pmap(_replay_subtree, order)
     skipped = shared = 0
@@ -309,7 +416,19 @@ def _history(args):
     seed, hid, big = args
     rng = random.Random(seed)
     era, palette = RENDERINGS[(hid // 2) % len(RENDERINGS)]      # hid % 2 is the tie / notie mode
-    RENDER.use(era, palette)
+    # how the instants are written: 3 of 7 histories without a zone (one of them on whole days, where a
+    # datetime.date will do), 4 of 7 timezone-aware - every stamp and read time in a zone of its own
+    # choosing ('zones': UTC-10 .. UTC+10, so wall clocks and instants order differently), in UTC
+    # only, or all in one zone away from UTC
+    wr = ('naive13', 'zones', 'daily', 'utc', 'zones', 'naive13', 'onezone')[hid % 7]
+    RENDER.use(era, palette, wr if wr in CLOCKS else 'utc5')
+    zone_pool = {'zones': [-2, -1, 0, 1, 2], 'utc': [0], 'onezone': [rng.choice([-2, -1, 1, 2])]}.get(wr, [0])
+    stypes, rtypes = types_of(STAMP_TYPES), types_of(READ_TYPES)
+
+    def written(t):
+        """the instant t in a zone, a Python type and a zone library of this history's choosing"""
+        z = rng.choice(zone_pool)
+        return {'w': t + z, 'z': z}, rng.choice(ZKIND_LIST)
     nd = rng.randint(20, 60)
     dates = sorted(rng.sample(range(NDATES), nd))
     mode = ('tie', 'notie')[hid % 2]                  # may publications sharing a stamp overlap in dates?
@@ -321,7 +440,7 @@ def _history(args):
     store = None
     events = []
     s = 2
-    feats = {'mode': mode, 'era': era, 'palette': palette, 'dates': nd, 'rows_gt16': False, 'batch': False, 'again': 0}
+    feats = {'mode': mode, 'era': era, 'palette': palette, 'written': wr, 'dates': nd, 'rows_gt16': False, 'batch': False, 'again': 0}
     pending = []
 
     def pick_cell(d):
@@ -344,12 +463,13 @@ def _history(args):
         ts = must + rng.sample(rest, min(len(rest), 3 if not big else 4))
         for T in ts:
             for what in ((-1, 0) if rng.random() < 0.5 else (-1,)):
-                sp = rng.choice(['dt', 'dt', 'ts', 'np'])
+                sp = rng.choice(('dt',) + rtypes)
+                wz, zk = written(T)
                 if T > stamps[-1] and rng.random() < 0.3:
-                    sp = 'none'
-                o = read(store, T, what, sp)
-                events.append({'op': 'read', 'T': T, 'what': what, 'ok': o['ok'], 'res': o['res'],
-                               'spelling': sp, **({'cls': o['cls']} if 'cls' in o else {})})
+                    sp, wz = 'none', {'w': T, 'z': 0}
+                o = read(store, (wz['w'], wz['z']), what, sp, zk)
+                events.append({'op': 'read', 'T': T, **wz, 'what': what, 'ok': o['ok'], 'res': o['res'],
+                               'spelling': sp, 'zkind': zk, **({'cls': o['cls']} if 'cls' in o else {})})
 
     for m in range(nmerge):
         if m and rng.random() < 0.6:
@@ -372,8 +492,9 @@ def _history(args):
         for d, c in pairs:
             last.setdefault(d, []).append(c)
         at_stamp.setdefault(s, set()).update(ds)
-        events.append({'op': 'merge', 's': s, 'v': pairs})
-        pending.append((s, pairs))
+        wz, zk = written(s)
+        events.append({'op': 'merge', 's': s, **wz, 'v': pairs, 'stype': rng.choice(stypes), 'zkind': zk})
+        pending.append((_ev_stamp(events[-1]), pairs))
         if len(pending) < 3 and m + 1 < nmerge and rng.random() < 0.15:
             continue                                   # held back: merged together with the next one, in one call
         n_old = 0 if store is None else len(store)
@@ -386,7 +507,7 @@ def _history(args):
         else:
             sp = rng.choice(['bi', 'bi', 'asof', 'start'])
             dt_ = rng.choice(['float', 'float', 'int'])
-            store = merge(store, s, pairs, sp, dt_)
+            store = merge(store, pending[0][0], pairs, sp, dt_)
             events[-1]['spelling'] = sp
         pending = []
         reads_now()
@@ -394,8 +515,9 @@ def _history(args):
             s2 = rng.choice(stored_stamps(store))
             rows = stored_rows(store, s2)
             sub = [r for r in rows if rng.random() < rng.choice([0.2, 0.7, 1.0])] or rows[:1]
-            store = merge(store, s2, sub)
-            events.append({'op': 'again', 's': s2, 'v': sub, 'rows': rows})
+            wz, zk = written(s2)                      # the re-merge may write the instant in another zone
+            events.append({'op': 'again', 's': s2, **wz, 'v': sub, 'rows': rows, 'stype': rng.choice(stypes), 'zkind': zk})
+            store = merge(store, _ev_stamp(events[-1]), sub)
             feats['again'] += 1
             reads_now()
     feats['ties'] = has_ties(events)
@@ -427,7 +549,8 @@ def c2s(ctx, n, big):
             continue                                 # one report per history and clause
         rejected.add((hi, clause))
         prior = [x for x in h['events'][:k - 1] if x['op'] != 'read']
-        found.append((clause, {'engine': 'c2s', 'op': 'read', 'what': e['what'], 'T': e['T'],
+        found.append((clause, {'engine': 'c2s', 'op': 'read', 'what': e['what'], 'T': e['T'], 'w': e['w'], 'z': e['z'],
+                               'spelling': e['spelling'], 'written': h['feats']['written'],
                                'after': prior[-1]['op'], 'ties': h['feats']['ties'], 'rows_gt16': h['feats']['rows_gt16'],
                                'mode': h['feats']['mode'], 'era': h['feats']['era'], 'palette': h['feats']['palette'], 'history': hi, 'event': k, 'hist': prior},
                       {'observed': e}))
@@ -436,7 +559,7 @@ def c2s(ctx, n, big):
         path = os.path.join(ctx.tmp, 'explain.ndjson')
         with open(path, 'w') as f:
             for clause, case, detail in found[:12]:
-                f.write(json.dumps({'hist': case['hist'], 'T': case['T']}, separators=(',', ':')) + '\n')
+                f.write(json.dumps({'hist': case['hist'], 'w': case['w'], 'z': case['z']}, separators=(',', ':')) + '\n')
         for x in ctx.generate('Trace_Bitemporal_Explain', env={'OBS_FILE': path}):
             clause, case, detail = found[x['line'] - 1]
             detail['expected'] = ({'latest': x['latest']} if case['what'] == -1 else
@@ -455,6 +578,8 @@ def c2s(ctx, n, big):
     ctx.extra['c2s'] = {'histories': n, 'events': sum(len(h['events']) for h in hs),
                         'reads': sum(1 for h in hs for e in h['events'] if e['op'] == 'read'),
                         'with_ties': sum(1 for h in hs if h['feats']['ties']),
+                        'written': {w: sum(1 for h in hs if h['feats']['written'] == w) for w in sorted({h['feats']['written'] for h in hs})},
+                        'reads_that_raised': sum(1 for h in hs for e in h['events'] if e['op'] == 'read' and e['ok'] == 0),
                         'with_more_than_16_rows': sum(1 for h in hs if h['feats']['rows_gt16']),
                         'with_batch_merge': sum(1 for h in hs if h['feats']['batch']),
                         're_merges': sum(h['feats']['again'] for h in hs)}
@@ -485,22 +610,35 @@ def run(ctx):
     if q:
         ctx.mc('MC_Bitemporal', 'MC_Bitemporal_quick.cfg')
         ctx.mc('MC_Bitemporal', 'MC_Bitemporal_quick1.cfg')
+        ctx.mc('MC_Bitemporal', 'MC_Bitemporal_zones.cfg')       # stamps / read times written in three zones, mixed
     else:
         ctx.mc('MC_Bitemporal', 'MC_Bitemporal_thorough.cfg')
         ctx.mc('MC_Bitemporal', 'MC_Bitemporal_thorough1.cfg')
         ctx.mc('MC_Bitemporal', 'MC_Bitemporal_thorough3.cfg')
+        ctx.mc('MC_Bitemporal', 'MC_Bitemporal_tzones.cfg')
+        ctx.mc('MC_Bitemporal', 'MC_Bitemporal_tzones2.cfg')
     # the clause "of several sharing a stamp the one merged last" needs a stable sort: the same
     # mechanism with an unstable one must break Refines (shows the invariant is not vacuous)
     ctx.mc('MC_Bitemporal', 'MC_Bitemporal_unstable.cfg', must_fail='MCRefines', coverage=False)
+    # "stamp <= T" is about instants: the same mechanism dropping the zone of a written time without
+    # converting (two desks in two zones) must break Refines too
+    ctx.mc('MC_Bitemporal', 'MC_Bitemporal_nozone.cfg', must_fail='MCRefines', coverage=False)
     # --- S2C ----------------------------------------------------------------------------------
     s2c(ctx, ctx.generate('MC_Bitemporal', 'MC_Bitemporal_gen1.cfg'), 'gen1')
     s2c(ctx, ctx.generate('MC_Bitemporal', 'MC_Bitemporal_gen2.cfg'), 'gen2')
+    # every history of <= 2 publications + 1 re-merge with every stamp and read time in a zone east or west
+    s2c(ctx, ctx.generate('MC_Bitemporal', 'MC_Bitemporal_gen5.cfg'), 'gen5-zones')
     if not q:
         s2c(ctx, ctx.generate('MC_Bitemporal', 'MC_Bitemporal_gen4.cfg'), 'gen4')
+        s2c(ctx, ctx.generate('MC_Bitemporal', 'MC_Bitemporal_gen6.cfg'), 'gen6-zones')
     with _one_worker():
         sim = ctx.generate('MC_Bitemporal', 'MC_Bitemporal_gen3.cfg', simulate=150 if q else 2000, depth=8,
                            seed=ctx.seed + 17, workers=1)
     s2c(ctx, sim, 'gen3-simulated')
+    with _one_worker():
+        sim = ctx.generate('MC_Bitemporal', 'MC_Bitemporal_gen7.cfg', simulate=40 if q else 800, depth=8,
+                           seed=ctx.seed + 71, workers=1)
+    s2c(ctx, sim, 'gen7-zones-simulated')
     # --- C2S ----------------------------------------------------------------------------------
     c2s(ctx, 160 if q else 1500, not q)
     ctx.exhaustive = False
